@@ -254,7 +254,16 @@ class _Rewrite(ast.NodeTransformer):
         self.generic_visit(node)
         if isinstance(node.op, ast.Mod):
             raise HarnessError('unsupported construct: %%= in %s line %d' % (self.modname, node.lineno))
-        return node
+        # target op= value  ->  target = __sx_iop__(target, value, 'op')   (in-place where numpy can)
+        import copy
+        load = copy.deepcopy(node.target)
+        for n in ast.walk(load):
+            if hasattr(n, 'ctx'):
+                n.ctx = ast.Load()
+        self.stats['augassign_sites'] = self.stats.get('augassign_sites', 0) + 1
+        call = ast.Call(func=ast.Name(id='__sx_iop__', ctx=ast.Load()),
+                        args=[load, node.value, ast.Constant(value=type(node.op).__name__)], keywords=[])
+        return ast.copy_location(ast.Assign(targets=[node.target], value=call), node)
 
     def visit_Dict(self, node):
         self.generic_visit(node)
@@ -316,6 +325,28 @@ class _Rewrite(ast.NodeTransformer):
         return node
 
 
+import operator as _operator
+
+_IOPS = dict(Add=(_operator.iadd, _operator.add), Sub=(_operator.isub, _operator.sub),
+             Mult=(_operator.imul, _operator.mul), Div=(_operator.itruediv, _operator.truediv),
+             Pow=(_operator.ipow, _operator.pow), FloorDiv=(_operator.ifloordiv, _operator.floordiv),
+             BitAnd=(_operator.iand, _operator.and_), BitOr=(_operator.ior, _operator.or_),
+             MatMult=(_operator.imatmul, _operator.matmul), LShift=(_operator.ilshift, _operator.lshift),
+             RShift=(_operator.irshift, _operator.rshift), BitXor=(_operator.ixor, _operator.xor))
+
+
+def sx_iop(a, b, opname):
+    iop, op = _IOPS[opname]
+    if isinstance(a, _np.ndarray) and (is_sym(b) or (isinstance(b, _np.ndarray) and b.dtype == object
+                                                       and a.dtype != object)):
+        r = op(a, b)
+        if a.dtype == object and isinstance(r, _np.ndarray) and r.shape == a.shape:
+            a[...] = r
+            return a
+        return r
+    return iop(a, b)
+
+
 class Shadow:
     """Namespace holding the shadow modules: .util .segment .taper .pulse .mininec"""
 
@@ -341,7 +372,7 @@ def load(repo=None, patches=None):
     sh = Shadow()
     glob = dict(
         __sx_np__=npf.NP, __sx_npf__=npf, __sx_mod__=tokens.sx_mod, __sx_dict__=SxDict,
-        __sx_mods__=sh.mods,
+        __sx_mods__=sh.mods, __sx_iop__=sx_iop,
         float=sx_float, int=sx_int, complex=sx_complex, min=core.smin, max=core.smax,
         round=sx_round, set=sx_set,
     )
